@@ -23,7 +23,7 @@ from pbt.core import Collector, HarnessError, mksig
 ID = "C08"
 RULE = ("(a) Hypothesis-generated neutral statements (select/insert/update/delete, joins, subqueries in FROM/IN/select, CTEs, set operations, CASE, functions) rendered "
         "under all 30 ordered class pairs and with generic-built inner queries; (b) enumerated matrix: 10 sensitive terms x 12 positions (9 nesting positions, UPDATE SET, and the plain value in UPDATE SET / INSERT VALUES) x 6 classes x "
-        "{same, generic} inner class x {inline, parameterised}. Non-trivial = nesting depth >= 2 or a sensitive term below a nesting construct; distinct = distinct case.")
+        "{same, generic} inner class x {inline, parameterised}. Non-trivial = nesting depth >= 2 or a sensitive term below a nesting construct; distinct = distinct case. (d) set-operand wrapping: 6 shapes of chained / nested set operations x 16 operator pairs x 6 classes: after normalising operand brackets (and SQLite's FROM-subquery form) every class groups the operands the same way.")
 ASSUMPTIONS = [
     "convention table (DESIGN.md Appendix C): quotes, placeholders, boolean / array / interval forms, set-operand brackets (MySQL, SQLite bare), GROUP BY alias policy (MSSQL, Oracle re-render)",
     "the pagination form of an inner query is bound to the class that built it (documented) and is not part of the neutral subset",
